@@ -23,6 +23,9 @@ class HarnessPanic(Exception):
         self.bin_name, self.output = bin_name, output
 
 
+REPO = '/repo'
+
+
 def seed():
     try:
         return int(os.environ.get('VERIF_SEED', '1'))
